@@ -16,6 +16,11 @@ ASSUMPTIONS = ['A1 rename(2) moves a symlink itself', 'A2 shutil.move recreates 
 MINIMUM = {'R18.1': 1, 'R18.2': 2, 'R18.3': 1, 'R18.4': 1, 'R18.5': 1, 'R18.6': 1}
 
 
+# rules of sibling properties that are necessary conditions of this one too
+# (evaluated by the sibling module on the same graphs, reported under this property)
+ALSO = {'C07': {'R07.4': "the link's volume is that of its parent directory (normalised before "
+                  'dirname)'}}
+
 def arg_only_under_dirname(t, is_arg):
     if is_arg(t):
         return False
